@@ -13,7 +13,7 @@ def optStr (j : Json) : Option String := if isNull j then none else some (str j)
 def pHeaders (j : Json) : List Header :=
   (arr j).map fun h => { name := str (field h "n"), values := (strList (field h "v")).map String.toList }
 
-def pMsg (j : Json) : Msg := { tag := nat (field j "t"), data := unhex (str (field j "d")) }
+def pMsg (j : Json) : Msg := { tag := str (field j "t"), data := unhex (str (field j "d")) }
 
 def pReqInfo (j : Json) : ReqInfo :=
   { headers := pHeaders (field j "h"), timeoutMs := optInt (field j "to"),
